@@ -16,6 +16,7 @@ PRIMES = [2, 3, 5, 7, 11, 13, 17, 19]
 A_DIAG = np.array([2 + 1j, 3 + 2j, 1 + 4j, 5 + 2j])
 B_DIAG = np.array([1 + 2j, 4 + 1j, 2 + 3j, 6 + 1j])
 TOL = 1e-9
+DEPH_G = 0.0625        # gamma * dt / 4 of the parameterised dephasing (C08)
 
 
 def omega(m):
@@ -223,6 +224,8 @@ def expected_state(rec, rho0, d, m):
                 c *= np.conj(A_DIAG[f[1]])
             elif f[0] == "Bc":
                 c *= np.conj(B_DIAG[f[1]])
+            elif f[0] == "d":
+                c *= np.exp(-DEPH_G * f[1])
             else:
                 raise ValueError(f)
         out[t["kt"], t["bt"]] += c
